@@ -1075,6 +1075,11 @@ def read_check(side, t, obj, exp, path='$'):
             return [] if obj._value is None else ['%s: payload on a Void tag' % path]
         return read_check(side, f.data_type, obj._value, exp[3], '%s<%s>' % (path, exp[2]))
     got = side.codec.to_tagged(obj)
+    if got[0] in 'if' and exp[0] in 'if':
+        # a number is a number: 3 and 3.0 are the same value (an integer given for a float position is stored as given by
+        # `Union.__init__`, and comes back as a float)
+        if side.codec.to_py(got) == side.codec.to_py(exp):
+            return []
     if canon(got) != canon(exp):
         return ['%s: %r expected, got %r' % (path, exp, got)]
     return []
@@ -1293,7 +1298,9 @@ def judge_forward(ck, P, base, i, w, model):
             ck.agree('compat.dec')
         else:
             ck.disagree('compat.dec', dict(case, strict=strict), list(real_t), list(mo))
-        if not strict and real[0] == 'ok' and not amb:
+        if not strict and real[0] == 'ok' and not amb and not model[('wire', i)].get('normal'):
+            ck.stat('compat.view_not_compared.value_not_normalised')
+        elif not strict and real[0] == 'ok' and not amb:
             mv = model[('view', i)].get('ok')
             if mv is not None and canon(mv) == canon(real_t[1]):
                 ck.agree('compat.view')
@@ -1335,7 +1342,9 @@ def judge_forward(ck, P, base, i, w, model):
                              {'kind': 'forward-' + ('strict' if strict else 'lenient'), 'why': why[0]},
                              dict(case, strict=strict, real=[real[0], repr(real[1])[:300]], expected=exp, message_has_unknown=unknown))
     mw = model[('wire', i)]
-    if mw.get('valid') and mw.get('ok') is not None and canon(mw['ok']) == canon(doc):
+    if mw.get('valid') and not mw.get('normal'):
+        ck.stat('compat.wire_not_compared.value_not_normalised')     # `wire` is specified on normalised values (C05)
+    elif mw.get('valid') and mw.get('ok') is not None and canon(mw['ok']) == canon(doc):
         ck.agree('compat.wire')
     else:
         ck.disagree('compat.wire', case, doc, mw)
@@ -1377,7 +1386,9 @@ def judge_backward(ck, P, base, i, w, model):
             ck.agree('compat.dec')
         else:
             ck.disagree('compat.dec', dict(case, strict=strict), list(real_t), list(mo))
-        if real[0] == 'ok' and not vtr and not amb:
+        if real[0] == 'ok' and not vtr and not amb and not model[('wire', i)].get('normal'):
+            ck.stat('compat.lift_not_compared.value_not_normalised')
+        elif real[0] == 'ok' and not vtr and not amb:
             ml = model[('lift', i)].get('ok')
             if ml is not None and canon(ml) == canon(real_t[1]):
                 ck.agree('compat.lift')
@@ -1403,7 +1414,9 @@ def judge_backward(ck, P, base, i, w, model):
                              {'kind': 'backward', 'why': why[0]},
                              dict(case, strict=strict, real=[real[0], repr(real[1])[:300]], expected=exp))
     mw = model[('wire', i)]
-    if mw.get('valid') and mw.get('ok') is not None and canon(mw['ok']) == canon(doc):
+    if mw.get('valid') and not mw.get('normal'):
+        ck.stat('compat.wire_not_compared.value_not_normalised')     # `wire` is specified on normalised values (C05)
+    elif mw.get('valid') and mw.get('ok') is not None and canon(mw['ok']) == canon(doc):
         ck.agree('compat.wire')
     else:
         ck.disagree('compat.wire', case, doc, mw)
